@@ -115,12 +115,6 @@ def specOld (v06 : Bool) (p : PathInfo) (ver : Str) (L : Laser) : Except Err Las
     if lexZip ns [0, 6, 0] = -1 then .error .valueError
     else .ok (if v06 then normaliseV06 p ver L else normalise p ver L)
 
-/-- is `ver` a version of the given generation -/
-def versionIn (ver : Str) (lo hi : List Nat) : Bool :=
-  match versionNums ver with
-  | none => false
-  | some ns => lexZip ns lo != -1 && lexZip ns hi == -1
-
 def handle (op : String) (req : Json) : R Json := do
   match op with
   | "c01.roundtrip" =>
@@ -140,9 +134,9 @@ def handle (op : String) (req : Json) : R Json := do
     let time ← fld req "time" >>= asS
     let v06 ← fld req "v06" >>= asS
     let v07 ← fld req "v07" >>= asS
-    let hyp := L.ok && versionOk ver && noNulEnd time && noNulEnd v06 && noNulEnd v07
-      && (versionIn v06 [0, 6, 0] [0, 7, 0] || versionIn v06 [0, 0, 0] [0, 6, 0])
-      && versionIn v07 [0, 7, 0] [0, 8, 0]
+    let hyp := L.ok && versionOk ver && noNulEnd time
+      && (version06Ok v06 || (noNulEnd v06 && cmpLt v06 v060)) && version07Ok v07
+      && noNulEnd ((dictGet L.info kName).getD [])
     pure (jObj [("model", jObj [("v06", jRes (saveV06 id v06 L >>= load id p)),
                                 ("v07", jRes (saveV07 id v07 L >>= load id p)),
                                 ("v08", jRes (save id ver time L >>= load id p))]),
